@@ -9,6 +9,29 @@ PY = '/venv/bin/python'
 
 # id -> (level category, level text, level note, technique, design ref, engine)
 CHECKS = {
+    'C03': ('exploration',
+            'Generated dispatch/complete/down/up/join/leave histories against the real heap and aperture balancers built '
+            'from their Builders; at every dispatch the stamped endpoint is compared with a reference model of outstanding '
+            'counts and channel states over the members in use at selection time (least-loaded open member; not-open only '
+            'when none open; NoMembersError when empty). Hypothesis target() steers the search with the number of heap '
+            'order inversions (diagnosis only).',
+            'member channels are harness objects; ties may break either way; the set in use is read from the heap at selection',
+            'Hypothesis op-list state machine vs per-member load model (heap + aperture)',
+            '5/C03', 'simkernel'),
+    'C04': ('exploration',
+            'Same machine; after every step balancer-attributed load == model outstanding per channel generation (aperture '
+            'total too), no "load below Zero" log, no request to a removed member, and Close() of a removed member exactly '
+            'once at the step the model predicts (leave step if idle/marked down, else the step draining its last request).',
+            '"marked down" read from the heap node just before the leave; channels are harness objects',
+            'Hypothesis op-list state machine; load-conservation and drain-then-close oracle',
+            '5/C04', 'simkernel'),
+    'C05': ('exploration',
+            'Generated join/leave histories (duplicates, unknown leaves, re-joins) interleaved with traffic and with a delayed '
+            'initial load; after every quiescent step known servers / heap / active+idle partition == model server set; final '
+            'saturating probe on the heap balancer touches exactly the server set.',
+            'serial notifier; snapshot semantics for GetServers',
+            'Hypothesis op-list state machine with init-race provider; set equality + saturating probe',
+            '5/C05', 'simkernel'),
     'C10': ('exploration',
             'Generated schedule/cancel/advance histories (actions may schedule or cancel) are run against the real '
             'TimerQueue on a virtual clock and compared with a reference schedule after every clock advance: '
